@@ -167,9 +167,9 @@ func (x *Exec) callUnknown(s *State, fr *Frame, key string, args []Value, sig *t
 	if os.Getenv("GOVC_DEBUG") != "" {
 		fmt.Fprintf(os.Stderr, "callUnknown %s args=%d ats=%v reach=%d all=%v frame=%v\n", key, len(args), ats, len(reach), all, x.spec.Frame)
 	}
-	if len(x.spec.Frame) > 0 && (all || len(reach) > 0) {
+	if ft := x.spec.Frame; len(ft) > 0 && (all || len(reach) > 0) && !x.assignsEverything() {
 		// a callee without contract may write anything reachable, including shared state
-		x.oblige(s, "frame", fmt.Sprintf("frame@%s#%s", shortFn(fnKey(fr.fn)), x.siteOrdinal(fr.fn, in)), TFalse, x.spec.Frame, in.Pos(),
+		x.oblige(s, "frame", fmt.Sprintf("frame@%s#%s", shortFn(fnKey(fr.fn)), x.siteOrdinal(fr.fn, in)), TFalse, ft, in.Pos(),
 			"call of "+shortFn(key)+" which has no contract (it may write shared state)")
 	}
 	if all {
@@ -348,8 +348,8 @@ func (x *Exec) callSpec(s *State, fr *Frame, spec *FuncSpec, key string, args []
 			if !found {
 				panic(specErr{fmt.Sprintf("%s: no field %s in %s", spec.Pos, a.Field, t)})
 			}
-			if len(x.spec.Frame) > 0 {
-				x.oblige(s, "frame", fmt.Sprintf("frame@%s#%s", shortFn(fnKey(fr.fn)), x.siteOrdinal(fr.fn, in)), TFalse, x.spec.Frame, in.Pos(), "callee assigns a field of every object of a type")
+			if ft := x.spec.Frame; len(ft) > 0 && !x.assignsEverything() && !x.assignsAllOf(t) {
+				x.oblige(s, "frame", fmt.Sprintf("frame@%s#%s", shortFn(fnKey(fr.fn)), x.siteOrdinal(fr.fn, in)), TFalse, ft, in.Pos(), "callee assigns a field of every object of a type")
 			}
 			x.havocMods(s, fr, m, nil)
 			continue
@@ -584,4 +584,25 @@ func calleeNames(c *ssa.CallCommon) []string {
 		}
 	}
 	return out
+}
+
+// assignsEverything / assignsAllOf: does the contract of the function being verified itself allow such writes?
+func (x *Exec) assignsEverything() bool {
+	for _, a := range x.spec.Assigns {
+		if a.All {
+			return true
+		}
+	}
+	return false
+}
+
+func (x *Exec) assignsAllOf(t types.Type) bool {
+	for _, a := range x.spec.Assigns {
+		if a.Owner != nil {
+			if ot, err := x.w.ResolveType(funcHome[x.spec], a.Owner); err == nil && x.w.heapKey(ot) == x.w.heapKey(t) {
+				return true
+			}
+		}
+	}
+	return false
 }
